@@ -195,7 +195,9 @@ Inductive op :=
 | Clear                          (* clearProcessLogs / removelogs *)
 | Reopen                         (* SIGUSR2 / reopenlogs *)
 | ExtDelete (name : Z)           (* somebody unlinks <path>.name (0: the live log) *)
-| ExtReplace (name : Z) (c : bytes).   (* somebody puts a new file there *)
+| ExtReplace (name : Z) (c : bytes)    (* somebody puts a new file there *)
+| ReopenFails                    (* reopen() while open() fails (log directory missing): close(); open raises *)
+| ClearFails.                    (* remove(); reopen() in the same situation: close(); ENOENT tolerated; open raises *)
 
 Definition ext_replace (f : fs) (name : Z) (c : bytes) : fs :=
   let ino := next f in
@@ -211,8 +213,18 @@ Definition step (st : outcome) (o : op) : outcome :=
     | Reopen => let '(f, h) := reopen f h in Ok f h
     | ExtDelete n => Ok (unlink f n) h
     | ExtReplace n c => Ok (ext_replace f n c) h
+    (* the handler is left closed (self.closed stays True), nothing else changes; the
+       exception goes to the caller of reopen()/removelogs(), not out of a later emit *)
+    | ReopenFails => Ok f (with_stream h None (h_append h) (h_pos h))
+    | ClearFails => Ok f (with_stream h None (h_append h) (h_pos h))
     end
   end.
+
+(* which values reach the handler: a configured value (0 included) is used as
+   it is, the default only when nothing was configured (Options.process_config:
+   `if getattr(self, name) is None`; options.py 647-648 and 996-999 for programs) *)
+Definition effective (dflt : Z) (configured : option Z) : Z :=
+  match configured with Some v => v | None => dflt end.
 
 Definition empty_fs : fs := {| names := []; inodes := []; next := 1 |}.
 
